@@ -38,6 +38,7 @@ type FuncInfo struct {
 	Obj  *types.Func
 	Pkg  *packages.Package
 	g    *Graph
+	gi   *Graph // graph with unexported callees inlined (inline.go)
 }
 
 // Program is the resolved program: syntax, types, (lazily) SSA.
